@@ -69,6 +69,7 @@ func init() {
 				sc.SetInt("nt", g.Range(1, 4))
 			}
 			encodeAttempts(sc, att, mode)
+			sc.SetInt("again", g.Intn(2))
 			sc.SetInt("seqmode", 1)
 			return sc
 		},
@@ -224,13 +225,13 @@ func runC15(e *Env) {
 	var srcs []*Src
 	var o ro.Observable[int]
 	type span struct{ sub, tear int }
+	evals := 0
 	if multi {
 		s := e.NewSrc(sc.Sources[0])
 		for _, sp := range sc.Sources {
 			s.Attempts = append(s.Attempts, sp.Script)
 		}
 		srcs = []*Src{s}
-		evals := 0
 		truth, nt := sc.Int("truth", 0), sc.Int("nt", 1)
 		cond := func() bool {
 			e.Call("cond")
@@ -331,6 +332,32 @@ func runC15(e *Env) {
 	for _, s := range srcs {
 		if s.Live != 0 {
 			e.Violate("C15", "attempt-not-released", fmt.Sprintf("%s: %d attempt(s) still subscribed after the stream ended", sc.Sub, s.Live))
+		}
+	}
+	// Ints[again]: the same observable is subscribed a second time, its source going through the same
+	// sequence of attempt outcomes again: counters and budgets belong to the subscription, so the second
+	// run makes exactly the attempts the first one made
+	if multi && sc.Int("again", 0) == 1 && sc.Int("cancel", 0) == 0 && len(e.Viols) == 0 && h.Ret() {
+		s := srcs[0]
+		used := s.Subs
+		att := make([][]Step, used)
+		for _, sp := range sc.Sources {
+			att = append(att, sp.Script)
+		}
+		s.Attempts = att
+		evals = 0
+		rec2 := e.NewRec("again")
+		e.Subscribe(o, rec2.Observer(), nil)
+		e.SettleFor(400 * Unit)
+		if e.K.Capped() {
+			e.Violate("C15", "does-not-terminate", fmt.Sprintf("%s: the second subscription of the same observable never became quiescent (attempts %d, trace %s)", sc.Sub, s.Subs-used, rec2.Trace()))
+			return
+		}
+		if got2 := eventsToN(rec2.Events); !sameN(got2, want) {
+			e.Violate("C15", "output-second-subscription:"+sc.Sub, fmt.Sprintf("%s %v over attempts %s: the second subscription of the same observable delivered [%s], the first one (and the definition) [%s]", sc.Sub, sc.Ints, describeAttempts(sc), traceN(got2), traceN(want)))
+		}
+		if n := s.Subs - used; n != wantAttempts {
+			e.Violate("C15", "attempt-count-second-subscription:"+sc.Sub, fmt.Sprintf("%s %v over attempts %s: the second subscription of the same observable made %d attempts, the definition prescribes %d", sc.Sub, sc.Ints, describeAttempts(sc), n, wantAttempts))
 		}
 	}
 }
